@@ -21,7 +21,8 @@ CONSTANTS Fam,         \* "fold" | "arg" | "cum" | "topk" | "quant" | "all"
           ZeroChunks,  \* BOOLEAN: also chunkings with one empty chunk (small shapes)
           Orders,      \* orders of `moment`
           QForms,      \* quantile argument forms [q, sq, kd]: q a sequence of rationals, sq = passed as a scalar
-          EmptyAxes    \* BOOLEAN: also axis=() for folds
+          EmptyAxes,   \* BOOLEAN: also axis=() for folds
+          NanBase      \* NaN-free float fills on which ALL NaN placements are enumerated (nan-arg reductions)
 
 VARIABLES case, done, exp, out
 
@@ -61,6 +62,17 @@ ArgCases(FS) ==
               ax \in ArgAxes(Len(f.shape)), kd \in BOOLEAN }
           : f \in FS }
 
+\* Every NaN placement: each subset of the cells of a base fill turned into NaN - in particular lanes that are
+\* all-NaN inside one block but not in the whole array, next to lanes with a NaN ahead of their extreme value.
+\* The nan-arg reductions are taken along each axis (the harness adds every chunking and split_every).
+NanPlacements(f) == { [f EXCEPT !.cells = [j \in DOMAIN f.cells |-> IF j \in S THEN NaN ELSE f.cells[j]]]
+                      : S \in SUBSET DOMAIN f.cells }
+NanPlaceCases(FS) ==
+  UNION { { [fam |-> "arg", grp |-> "nanplace", shape |-> g.shape, cells |-> g.cells, kind |-> "f",
+             chunkings |-> NDChunkings(g.shape), op |-> o, ax |-> ax, kd |-> FALSE]
+            : g \in NanPlacements(f), o \in {"nanargmin", "nanargmax"}, ax \in { <<a>> : a \in 0..(Len(f.shape) - 1) } }
+          : f \in FS }
+
 CumCases(FS) ==
   UNION { { [fam |-> "cum", shape |-> f.shape, cells |-> f.cells, kind |-> f.kind, chunkings |-> ChunkingsOf(f.shape),
              op |-> o, ax |-> ax]
@@ -89,11 +101,11 @@ QuantCases(FS) ==
 \* (the case sets take the fills as a parameter so that TLC, which evaluates constant
 \* definitions eagerly, builds only the family that is asked for)
 Cases == CASE Fam = "fold"  -> FoldCases(Fills)
-           [] Fam = "arg"   -> ArgCases(Fills)
+           [] Fam = "arg"   -> ArgCases(Fills) \cup NanPlaceCases(NanBase)
            [] Fam = "cum"   -> CumCases(Fills)
            [] Fam = "topk"  -> TopKCases(Fills)
            [] Fam = "quant" -> QuantCases(Fills)
-           [] Fam = "all"   -> FoldCases(Fills) \cup ArgCases(Fills) \cup CumCases(Fills)
+           [] Fam = "all"   -> FoldCases(Fills) \cup ArgCases(Fills) \cup NanPlaceCases(NanBase) \cup CumCases(Fills)
                                \cup TopKCases(Fills) \cup QuantCases(Fills)
 
 (* TLC generates initial states in one thread but successors in parallel, so a case is picked
@@ -139,6 +151,16 @@ ArgFirst == (done /\ case.fam = "arg" /\ case.ax = <<None>> /\ ~exp.err /\ Clean
                LET i == exp.cells[1] + 1
                    e == IF case.op \in {"argmin", "nanargmin"} THEN Min(Rng(Data)) ELSE Max(Rng(Data))
                IN Data[i] = e /\ \A j \in 1..(i - 1) : Data[j] # e
+
+\* nan-arg reductions along an axis never point at a NaN cell: the selected cell of every lane holds the
+\* extreme of the lane's non-NaN cells, and no earlier cell of the lane does
+NanArgSkipsNaN == (done /\ case.fam = "arg" /\ case.op \in {"nanargmin", "nanargmax"} /\ ~exp.err /\ Len(case.ax) = 1
+                   /\ case.ax # <<None>>) =>
+                     LET lanes == Lanes(case.shape, Data, RedSet(Len(case.shape), case.ax))
+                     IN \A j \in DOMAIN lanes :
+                          LET l == lanes[j]  i == exp.cells[j] + 1
+                              e == IF case.op = "nanargmin" THEN Min(Rng(DropNaN(l))) ELSE Max(Rng(DropNaN(l)))
+                          IN l[i] = e /\ \A k \in 1..(i - 1) : l[k] # e
 
 \* the last cell of a scan of the flattened array is the fold of everything
 ScanLast == (done /\ case.fam = "cum" /\ case.ax = <<None>> /\ Data # <<>>) =>
